@@ -306,6 +306,14 @@ func isChain(t *Term) bool {
 }
 
 func leafSet(t *Term) string {
+	if d, c, loc, ok := civilRecombination(t); ok {
+		// time.Date(civil fields of D, clock fields of T, 0, loc) is, for every four-digit year, the instant
+		// ParseInLocation("2006-01-02 15:04:05", D.Format("2006-01-02")+" "+T.Format("15:04:05"), loc) denotes
+		// (package time builds the parsed instant with the same Date call): it is given that term's origins
+		ks := []string{`" "`, `"15:04:05"`, `"2006-01-02 15:04:05"`, `"2006-01-02"`, c, d, loc}
+		sort.Strings(ks)
+		return strings.Join(ks, ",")
+	}
 	m := map[string]bool{}
 	termLeaves(t, m)
 	ks := []string{}
@@ -314,6 +322,62 @@ func leafSet(t *Term) string {
 	}
 	sort.Strings(ks)
 	return strings.Join(ks, ",")
+}
+
+// civilRecombination: t is time.Date(y, mo, d, h, mi, s, 0, loc) where y/mo/d are the three results of
+// D.Date() (or D.Year(), D.Month(), D.Day()) of one leaf D, and h/mi/s the three results of T.Clock() (or
+// T.Hour(), T.Minute(), T.Second()) of one leaf T, in exactly that order. Returns the leaves D, T and loc.
+func civilRecombination(t *Term) (string, string, string, bool) {
+	for t != nil && t.Op == "conv" && len(t.Args) == 1 {
+		t = t.Args[0]
+	}
+	if t == nil || t.Op != "call" || t.Name != "time.Date" || len(t.Args) != 8 {
+		return "", "", "", false
+	}
+	if n, ok := t.Args[6].Int64(); !ok || n != 0 {
+		return "", "", "", false
+	}
+	comp := func(x *Term, multi string, idx int, single string) (string, bool) {
+		for x != nil && x.Op == "conv" && len(x.Args) == 1 {
+			x = x.Args[0]
+		}
+		if x == nil {
+			return "", false
+		}
+		if x.Op == "extract" && x.Name == fmt.Sprint(idx) && len(x.Args) == 1 && x.Args[0].Op == "call" && x.Args[0].Name == multi && len(x.Args[0].Args) == 1 {
+			return stripConvsAny(x.Args[0].Args[0]).String(), true
+		}
+		if x.Op == "call" && x.Name == single && len(x.Args) == 1 {
+			return stripConvsAny(x.Args[0]).String(), true
+		}
+		return "", false
+	}
+	var d, c string
+	for i, single := range []string{"(time.Time).Year", "(time.Time).Month", "(time.Time).Day"} {
+		v, ok := comp(t.Args[i], "(time.Time).Date", i, single)
+		if !ok || (i > 0 && v != d) {
+			return "", "", "", false
+		}
+		d = v
+	}
+	for i, single := range []string{"(time.Time).Hour", "(time.Time).Minute", "(time.Time).Second"} {
+		v, ok := comp(t.Args[3+i], "(time.Time).Clock", i, single)
+		if !ok || (i > 0 && v != c) {
+			return "", "", "", false
+		}
+		c = v
+	}
+	if d == "" || c == "" || d == c {
+		return "", "", "", false
+	}
+	return d, c, t.Args[7].String(), true
+}
+
+func stripConvsAny(t *Term) *Term {
+	for t != nil && t.Op == "conv" && len(t.Args) == 1 {
+		t = t.Args[0]
+	}
+	return t
 }
 
 // replyTerm builds the symbolic reply of layout type t: every tagged field is the leaf reply@<offset>.
